@@ -13,7 +13,7 @@ import (
 func nilEdgeOfFieldTest(q *fq, field string) (ifs []*ssa.If, nilSucc []int) {
 	is, negs := q.c.P.IfsOn(q.fn, func(cond ssa.Value) bool {
 		b, ok := cond.(*ssa.BinOp)
-		return ok && (b.Op == token.EQL || b.Op == token.NEQ) && an.IsLoadOfField(b.X, field) && isNilConst(b.Y)
+		return ok && (b.Op == token.EQL || b.Op == token.NEQ) && either(b, loadOfField(field), isNilConst)
 	})
 	for i, ifi := range is {
 		b := stripNotV(ifi.Cond).(*ssa.BinOp)
